@@ -130,7 +130,18 @@ def gen_program(tape, phase, special):
     nproc = 1 + tape.draw(2, 'nproc')
     focus = tape.draw(6, 'focus')        # 4: log-heavy program; 3/5: everybody works on one key
     if focus == 5:
-        focus = 3
+        focus = 3 if tape.draw(2, 'focus.churn') == 0 else 6
+    if focus == 6:
+        # dataset churn: two processes take turns storing models that each bring a NEW dataset
+        # (whatever a process remembers about the dataset directory goes stale in between)
+        fill = [NPOOL + j for j in tape.permutation(len(POOL) - NPOOL, 'churn.models')[:5]]
+        threads = []
+        for p in range(2):
+            ops = [{'kind': 'store', 'model': fill[2 * i + p]} for i in range(2)]
+            if p == 0:
+                ops.append({'kind': 'store', 'model': fill[4]})
+            threads.append({'pid': p + 1, 'name': f'p{p + 1}.t1', 'ops': ops})
+        return {'models': fill, 'threads': threads, 'nproc': 2, 'focus': 6, 'prestore': False}
     if focus == 3:
         # hot key: transactions and readers of one entry (biased to one that carries results)
         hot = [e['idx'] for e in POOL[:NPOOL] if e['has_results']]
@@ -176,10 +187,15 @@ def gen_program(tape, phase, special):
                     if focus == 4 and tape.draw(5, 'log.long') < 2:
                         msg = base.MESSAGES[-1]          # > 8 KiB: two raw writes
                     ops.append({'kind': 'log', 'sev': sev, 'msg': f'{msg} #{phase}.{uid[0]}',
-                                'model': m if tape.draw(3, 'log.model') == 2 else None})
+                                'model': m if tape.draw(3, 'log.model') == 2 else None,
+                                'sub': tape.draw(5, 'log.sub') == 4})
                 elif kind == 'annotate':
                     ops.append({'kind': 'annotate', 'model': m,
                                 'text': base.ANNOTATIONS[tape.draw(len(base.ANNOTATIONS), 'annot.text')]})
+                elif kind == 'store' and tape.draw(5, 'store.sub') == 4:
+                    # through a subcontext object created by this thread (a new context and
+                    # database handle while other threads are inside transactions)
+                    ops.append({'kind': 'store', 'model': m, 'sub': True})
                 else:
                     ops.append({'kind': kind, 'model': m})
             threads.append({'pid': p + 1, 'name': f'p{p + 1}.t{t + 1}', 'ops': ops})
@@ -238,6 +254,7 @@ def run_one(cfg, tape, want_trace=False):
             holds = []
 
             def on_death(pid, k=k, simos=simos, hist=hist):
+                alive.discard(pid)
                 simos.exit_process(pid)
                 for r in hist.recs:
                     if r['pid'] == pid and r['status'] == 'inflight':
@@ -275,6 +292,8 @@ def run_one(cfg, tape, want_trace=False):
                         if not vt.killed and entry in holds:
                             holds.remove(entry)
 
+            CtxOf = {}
+            alive = set()
             for tspec in prog['threads']:
                 pid = pid_base + tspec['pid']
                 tspec['rpid'] = pid
@@ -282,6 +301,9 @@ def run_one(cfg, tape, want_trace=False):
                     thr = make_threading(k, faults=faults, stats=stats)
                     mods[pid] = modinst.load_lock_module(thr, simos.make_fcntl(pid), simos.make_os(pid))
                     ctxs[pid] = None
+                    # module-level state of the database/context modules is per process too
+                    CtxOf[pid] = base.private_modules(path_lock=sim_path_lock)[0]
+                    alive.add(pid)
 
             def make_client(tspec, k=k, hist=hist, ctxs=ctxs, faults=faults):
                 def body():
@@ -326,7 +348,7 @@ def run_one(cfg, tape, want_trace=False):
                 for pid in list(ctxs):
                     # fresh objects in each (virtual) process; opening the context is not
                     # part of the workload (no faults, no yields: called from the main thread)
-                    ctxs[pid] = base.quiet(base._P['Ctx']('ctx', ref=root))
+                    ctxs[pid] = base.quiet(CtxOf[pid]('ctx', ref=root))
                 if prog.get('prestore'):
                     # hot key already committed before the concurrent phase starts: every
                     # concurrent read of it must succeed, whatever later transactions do
@@ -348,7 +370,8 @@ def run_one(cfg, tape, want_trace=False):
                                        f'fault-free store of {e0["name"]} before phase {phase} raised {ex0!r}')
                 for tspec in prog['threads']:
                     k.spawn(make_client(tspec), tspec['name'], pid=tspec['rpid'])
-                outcome = k.run()
+                with base.virtual_process(lambda k=k: (k.me().pid if k.me() is not None else None), alive):
+                    outcome = k.run()
             finally:
                 fs.uninstall()
                 dbmod.path_lock, ctxmod.path_lock = saved_locks
@@ -438,6 +461,16 @@ def _justify_error(r, recs, failed_ops, simos, V, stats):
             stats['observed.store_key_race_FileExistsError'] = \
                 stats.get('observed.store_key_race_FileExistsError', 0) + 1
             return
+    if isinstance(ex, FileExistsError) and op.get('sub') and any(
+            x is not r and x['op'].get('sub') and x['inv'] < r['ret'] and
+            (x['ret'] is None or x['ret'] > r['inv']) for x in recs):
+        # two threads/processes create the same subcontext at the same time: _init_path tests
+        # is_dir() and then mkdir()s without a lock, one of them gets FileExistsError.  Like O8
+        # this is outside the statement (it speaks of stores, not of creating contexts):
+        # observed (DESIGN.md O9), not flagged.
+        stats['observed.subcontext_creation_race_FileExistsError'] = \
+            stats.get('observed.subcontext_creation_race_FileExistsError', 0) + 1
+        return
     V.viol(f'operation-failed-without-fault/{op["kind"]}/{type(ex).__name__}',
            f'{r["vt"]}: {base.fmt_op(op)} raised {ex!r} although no fault reached it')
 
@@ -462,7 +495,7 @@ def _check_history(hist, ref, failed_ops, V, stats, simos, k):
             # read returned, or of the latest ones acknowledged in earlier phases; "no results"
             # only if some store without results was among them / nothing carried results
             acc = {base.op_results_json(x['op']) for x in related} - {None}
-            earlier = e['key'] in ref.keys_acked
+            earlier = e['key'] in ref.keys_acked or bool(ref.res_writes.get(e['key']))
             if earlier:
                 acc |= ref.results_candidates(e['key'])
             if not acc or any(base.op_may_commit_without_results(x['op']) for x in related):
@@ -549,7 +582,7 @@ def _check_history(hist, ref, failed_ops, V, stats, simos, k):
                        POOL[x['op']['model']]['key'] == e['key'] and
                        x['op']['kind'] in base.KEY_COMMITTERS + ('nmfiles',)]
             acc = {base.op_results_json(x['op']) for x in related} - {None}
-            if e['key'] in ref.keys_acked:
+            if e['key'] in ref.keys_acked or ref.res_writes.get(e['key']):
                 acc |= ref.results_candidates(e['key'])
             if not acc or any(base.op_may_commit_without_results(x['op']) for x in related):
                 acc.add(None)
